@@ -434,10 +434,18 @@ package scipipe
 
 //@ define declaredRenamed(tempExecDir string, ip *FileIP) bool = effRenamed[tempExecDir + "/" + tempPathOf(ip.path)][ip.path]
 
+// finalizeTried: the IPs that have been handed to FinalizePaths so far (ghost; lets a caller's contract say "this IP went
+// through finalization before it was sent on", whatever FinalizePaths returned)
+//@ ghost var finalizeTried set[ref]
+//@ ghost func triedAfter(s set[ref], ips seq[*FileIP]) set[ref]
+//@ axiom triedAfter.adds: forall s set[ref], ips seq[*FileIP], j int :: 0 <= j && j < len(ips) ==> triedAfter(s, ips)[ips[j]]
+//@ axiom triedAfter.keeps: forall s set[ref], ips seq[*FileIP], r ref :: s[r] ==> triedAfter(s, ips)[r]
 //@ func FinalizePaths(tempExecDir, ips) (err)
 //@   props C01 C03 C13 C17
 //@   requires wf: forall j int :: 0 <= j && j < len(ips) ==> ips[j] != nil && len(ips[j].path) > 0
-//@   modifies effRenamed, effMkdir, effRemoved, fsEpoch
+//@   modifies effRenamed, effMkdir, effRemoved, fsEpoch, finalizeTried
+//@   ghost set finalizeTried = triedAfter(finalizeTried, ips)
+//@   ensures handed-in: finalizeTried == triedAfter(old(finalizeTried), ips)
 //@   ensures declared-renamed[C13]: err == nil ==> forall j int :: 0 <= j && j < len(ips) && !ips[j].doStream ==> declaredRenamed(tempExecDir, ips[j])
 //@   ensures rename-src-under-temp[C01]: forall a string, b string :: newRename(a, b) ==> hasPrefix(a, tempExecDir)
 //@   ensures declared-or-extra[C13,C17]: forall a string, b string :: newRename(a, b) ==> (exists j int :: 0 <= j && j < len(ips) && !ips[j].doStream && a == tempExecDir + "/" + tempPathOf(ips[j].path) && b == ips[j].path) || b == extraDest(tempExecDir, a)
@@ -451,7 +459,7 @@ package scipipe
 //@ func (*Task).finalizePaths(t) (err)
 //@   props C01 C03 C13
 //@   requires wf: wfTask(t)
-//@   modifies effRenamed, effMkdir, effRemoved, fsEpoch
+//@   modifies effRenamed, effMkdir, effRemoved, fsEpoch, finalizeTried
 //@   ensures all-renamed: err == nil ==> forall k string :: nonStreamOut(t, k) ==> effRenamed[tmpOut(t, k)][t.OutIPs[k].path]
 //@   ensures rename-src-under-temp: forall a string, b string :: newRename(a, b) ==> hasPrefix(a, tmpDirOf(t))
 //@   ensures declared-or-extra: forall a string, b string :: newRename(a, b) ==> (exists k string :: nonStreamOut(t, k) && a == tmpOut(t, k) && b == t.OutIPs[k].path) || b == extraDest(tmpDirOf(t), a)
